@@ -532,7 +532,19 @@ impl<R: Read, TSpec> TagIterator<R, TSpec>
         while let Some(child) = iter.next() {
             if let Some(Master::Start) = child.as_master() {
                 let child_id = child.get_id();
-                let subchildren = iter.by_ref().take_while(|c| !matches!(c.as_master(), Some(Master::End)) || c.get_id() != child_id).collect();
+                // A master can contain further instances of itself, so find the end that matches this start
+                let mut nested_depth = 0;
+                let subchildren = iter.by_ref().take_while(|c| {
+                    if c.get_id() == child_id {
+                        match c.as_master() {
+                            Some(Master::Start) => nested_depth += 1,
+                            Some(Master::End) if nested_depth == 0 => return false,
+                            Some(Master::End) => nested_depth -= 1,
+                            _ => {},
+                        }
+                    }
+                    true
+                }).collect();
                 rolled_children.push(Self::roll_up_children(child_id, subchildren));
             } else {
                 rolled_children.push(child);
